@@ -560,6 +560,20 @@ theorem nodup_noOverwrite {κ : Type} [DecidableEq κ] (log : List (String × κ
     rw [eq_of_nodup_fst log h a b ha hb hab]
   · left; exact hab
 
+
+/-- two inline function types that do not differ in any component of the written signature (targets, arity, parameter and
+    returned types, `?`, nested signatures, `throws`, parameter names) are one declaration written twice: the overwrite between
+    them is keyed `identical-declaration` — never by a Dom clause of the name, whatever name the implementation computed -/
+theorem anonCause_of_no_difference (keys : List String) (a b : Sig) (h : sigDiff keys a b = []) :
+    anonCause keys a b = "identical-declaration" := by
+  simp [anonCause, h]
+
+#guard anonCause ["cpp", "java"] { params := [("x", .ref "i32" false [])], ret := some (.ref "bool" false []) }
+    { params := [("x", .ref "i32" false [])], ret := some (.ref "bool" false []) } == "identical-declaration"
+#guard anonCause ["cpp", "java"] { params := [("x", .ref "i32" false [])], ret := some (.ref "bool" false []) }
+    { params := [("y", .ref "i32" false [])], ret := some (.ref "bool" false []) } == "duplicate-declaration"
+#guard sigDiff ["cpp", "java"] { params := [("x", .ref "i32" false [])] } { params := [("x", .ref "i32" false [])] } == []
+
 end Pydjinni.GenC
 
 namespace Pydjinni.SysC
